@@ -60,7 +60,7 @@ Qed.
 
 Theorem gen_compute1_prep : forall s,
   var_compute1_prep (v_dirty s) (v_count s) (v_sum s) (v_sq s) (v_min s) (v_max s) = nums (prep1 s).
-Proof. reflexivity. Qed.
+Proof. intros s. unfold var_compute1_prep, prep1, nums, z2b. destruct (v_dirty s =? 0); reflexivity. Qed.
 
 (* the packing loop of sc_stats_compute for variable i on rank `rank`: a clean variable's record is zeroed by ONE memset of
    7 * 8 bytes at element 7 * i of flatin (the seven slots keep whatever they were: the memset is the effect), a dirty
